@@ -35,7 +35,7 @@ def nontrivial(sim):
 
 
 def plan(tier, seed):
-    per, hist = (3, 70) if tier == 'quick' else (10, 220)
+    per, hist = (3, 70) if tier == 'quick' else (14, 450)
     specs = simcheck.sim_specs(['c04', 'c04', 'c09', 'c11'], seed, per, hist, base=40000)
     try:
         from vmon import real_c04
